@@ -117,11 +117,38 @@ def make_machine(tier):
         @vm.rule(specs=gen.related_obs_specs(2, ens_max=1, rep_max=3, lmin=8, lmax=nmax + 8, with_cov=False, sigma=gen.fl(0.01, 0.5), mean=gen.fl(0.3, 2.5)))
         @vm.traced
         def construct_related(self, specs):
+            objs = []
             for sp in specs:
                 o = build_obs(sp)
                 self.same_cfgs(o, sp)
                 self.add(o, 'constructed')
+                objs.append(o)
+            # operands on related (nested / overlapping) configuration sets are combined at once: the union must be well-formed
+            self.realign += 1
+            self.add(objs[0] + objs[1], 'sum of related observables')
+            self.add(objs[1] * objs[0], 'product of related observables')
             self.labels.append('construct_related')
+
+        @vm.rule(name=st.sampled_from(['A|r1', 'B', 'AB|x']), start=st.integers(0, 500), step=st.integers(1, 4), n=st.integers(10, nmax + 10),
+                 cut=st.tuples(st.integers(5, 9), st.integers(0, 4)), seed=st.integers(0, 10 ** 6))
+        @vm.traced
+        def construct_windows(self, name, start, step, n, cut, seed):
+            """Two observables on overlapping windows of one equally spaced grid: their union is equally spaced again and
+            must therefore be held as a range by whatever combines them."""
+            pts = [start + step * k for k in range(n)]
+            a_idl, b_idl = pts[:n - cut[1] - 1], pts[cut[0] - 5:][1:]
+            objs = []
+            for il, sd in ((a_idl, seed), (b_idl, seed + 1)):
+                sp = {'chains': [{'name': name, 'idl': il, 'form': 'list' if sd % 2 else 'range',
+                                  'data': {'kind': 'white', 'seed': sd, 'mean': 1.3, 'sigma': 0.2}}], 'cov': []}
+                o = build_obs(sp)
+                self.same_cfgs(o, sp)
+                self.add(o, 'constructed')
+                objs.append(o)
+            self.realign += 1
+            self.add(objs[0] - objs[1], 'difference of observables on overlapping windows')
+            self.add(objs[1] / objs[0], 'ratio of observables on overlapping windows')
+            self.labels.append('construct_windows')
 
         @vm.rule(mean=st.one_of(gen.fl(-2, 2), st.integers(-2, 2)), var=gen.fl(0.01, 2.0), name=st.sampled_from(['cx', 'cy']))
         @vm.traced
@@ -476,11 +503,17 @@ def malformed_oracle(spec):
         if kind == 'len_mismatch_idl_count':
             return pe.Obs(samples, names, idl=idl + [idl[0]])
         if kind == 'few_samples':
-            m = 1 + k % 4
-            samples[c0] = samples[c0][:m]
-            il = list(ch[c0]['idl'])[:m]
-            idl[c0] = il
-            return pe.Obs(samples, names, idl=idl)
+            full_s, full_i = samples[c0], list(ch[c0]['idl'])
+            for m in (4, 3, 2, 1):      # every length below five must be rejected
+                samples[c0] = full_s[:m]
+                idl[c0] = full_i[:m] if k % 2 else None
+                try:
+                    r = pe.Obs(samples, names, idl=idl) if k % 2 else pe.Obs(samples, names)
+                except Exception as e:
+                    last = e
+                    continue
+                return r
+            raise last
         if kind == 'multi_ensemble':
             other = 'Q' + names[0]
             return pe.Obs(samples + [samples[0]], names + [other + '|r1'], idl=idl + [idl[0]])
